@@ -4,7 +4,8 @@ over a grammar-driven corpus and require the statement itself - a result object,
 
 BOUNDED, never counted as proved.  Bound: the documents of props/parser_replay.corpus() (two
 kitchen-sink documents and 17 small ones; every truncation at a token boundary, single-token
-deletions and substitutions) that parse, against two schemas, with three variable mappings; quick
+deletions and substitutions) that parse, plus the documents of semantic_corpus() (fragment cycles
+under every operation type and directive, unknown / duplicate definitions; always all of them), against two schemas, with five variable mappings (one with keys that are not strings inside input objects, one full of integers beyond the int->str digit limit); quick
 runs every 4th candidate (seeded offset), thorough all.  Runs natively."""
 SCHEMA_A = '''
 directive @onField on FIELD
@@ -20,12 +21,61 @@ type Text { text: String }
 type Like { story: Story }
 input StoryLikeSubscribeInput { id: ID! }
 type Friend { foo(size: Int, bar: Int, obj: ComplexType, n: Int, t: Boolean, f: Boolean, e: Site, fl: Float): String }
-type Query { node(id: [ID]): Node whoever123is: Node unnamed(truthy: Boolean, falsy: Boolean, nullish: Int): String query: String a: String f(a: [Int], b: ComplexType, c: ComplexType): String }
+union Feed = Story | User
+type Query { friend: Friend feed: Feed feeds: [Feed] node(id: [ID]): Node whoever123is: Node unnamed(truthy: Boolean, falsy: Boolean, nullish: Int): String query: String a: String f(a: [Int], b: ComplexType, c: ComplexType): String }
 type Mutation { like(story: Int): Like }
 type Subscription { storyLikeSubscribe(input: StoryLikeSubscribeInput): Like }
 '''
 SCHEMA_B = "type Query { a: String b: B } type B { c: [B!]! d(x: Int = 1): Int }"
-VARIABLES = [None, {}, {"foo": {"key": "k", "extra": 1}, "site": "MOBILE", "v": 7, "input": {"id": 1},
+
+
+def semantic_corpus():
+    """Documents that parse but are semantically pathological; never sampled, always all of them:
+    fragment cycles (self, mutual, through inline fragments and nested fields) under every operation
+    type, with and without @defer / @stream / @skip, unknown fragments and types, duplicates."""
+    roots = {"query": "node(id: 1) { id }", "mutation": "like(story: 1) { story { id } }",
+             "subscription": "storyLikeSubscribe(input: {id: 1}) { story { id } }"}
+    types = {"query": "Query", "mutation": "Mutation", "subscription": "Subscription"}
+    for op, field in roots.items():
+        t = types[op]
+        for d in ("", "@defer", "@skip(if: false)", "@onQuery"):
+            yield f"{op} {{ ...A {d} }} fragment A on {t} {{ {field} ...A {d} }}"
+            yield f"{op} {{ ...A {d} }} fragment A on {t} {{ ...B }} fragment B on {t} {{ {field} ...A {d} }}"
+            yield f"{op} {{ ...A }} fragment A on {t} {{ ... on {t} {d} {{ ...A {field} }} }}"
+            yield f"{op} {{ ... {d} {{ ...A }} }} fragment A on {t} {{ ... {{ ... {{ ...A }} }} {field} }}"
+            yield f"{op} {{ ...A ...A {d} ...Missing }} fragment A on {t} {{ {field} }}"
+            yield f"{op} {{ ...A }} fragment A on Nope {{ ...A {d} }}"
+            yield f"{op} Q {{ {field} }} {op} Q {{ ...A {d} }} fragment A on {t} {{ {field} }} fragment A on {t} {{ ...A }}"
+        yield f"{op} {{ {field.replace('{ id }', '{ ...N }').replace('{ story { id } }', '{ ...N }')} }} " \
+              f"fragment N on Node {{ id ... on User {{ friends @stream {{ ...N }} }} }}"
+    # every directive on meta fields and ordinary fields under object / interface / union parents
+    for parent in ("node", "feed", "feeds", "whoever123is", "node(id: 1)"):
+        for fld in ("__typename", "... on User { __typename D id D friends D { id } }", "id", "... on Story { likers D { count D } }"):
+            for d in ("@stream", "@stream(initialCount: 1)", "@stream(if: false, label: \"l\")", "@defer", "@defer(label: \"x\")",
+                      "@skip(if: true)", "@include(if: $x)", "@onField", "@deprecated", "@specifiedBy(url: \"u\")", "@oneOf"):
+                yield "{ %s { %s } }" % (parent, fld.replace("D", d) if "D" in fld.replace("Dog", "") else fld + " " + d)
+    for d in ("@stream", "@defer", "@skip(if: true)", "@onField"):
+        yield "{ __typename %s __schema %s { queryType %s { name %s } } __type(name: \"Feed\") %s { possibleTypes %s { name } } }" % ((d,) * 6)
+        yield "mutation { __typename %s like(story: 1) %s { story %s { id } } }" % ((d,) * 3)
+        yield "subscription { storyLikeSubscribe(input: {id: 1}) %s { story %s { id } } }" % ((d,) * 2)
+    yield "{ node { ...U } } fragment U on User { friends { ...U } friends @stream(initialCount: 0) { ...U } }"
+    # valid documents whose variables are coerced (the variable mappings of VARIABLES meet every input kind)
+    yield "query ($v: Int) { unnamed(nullish: $v) }"
+    yield "query ($foo: ComplexType, $b: [ID]) { f(b: $foo) node(id: $b) { id } }"
+    yield "query ($v: Int, $x: Float, $site: Site, $a: Boolean, $foo: ComplexType) { friend { foo(size: $v, fl: $x, e: $site, t: $a, obj: $foo) } }"
+    yield "query ($v: [Int], $a: String = \"d\", $x: ID) { f(a: $v) node(id: [$x]) { id } unnamed(truthy: true) @include(if: true) }"
+    yield "subscription ($input: StoryLikeSubscribeInput) { storyLikeSubscribe(input: $input) { story { id } } }"
+    yield "query ($a: Int = $a) { unnamed(nullish: $a) }"
+    yield "query ($a: ComplexType = {inner: $a}) { f(b: $a) }"
+    yield "{ f(b: {inner: {inner: {inner: {n: [1, null]}}}}) }"
+    yield "{ __schema { types { name fields { type { ofType { ofType { name } } } } } } __type(name: \"Query\") { name } }"
+    yield "{ __typename ...T } fragment T on Query { __typename ...T }"
+
+
+HUGE = 10 ** 5000      # beyond the interpreter's int -> str digit limit (4300)
+VARIABLES = [None, {}, {"foo": {1: "k", "key": "k"}, "input": {None: 1, "id": 1}, "v": {}, "b": {("t",): 1}, "x": {b"id": 2}},
+             {"foo": {"key": HUGE, "n": [HUGE]}, "site": HUGE, "v": HUGE, "input": {"id": HUGE},
+                        "a": HUGE, "b": [HUGE], "x": HUGE}, {"foo": {"key": "k", "extra": 1}, "site": "MOBILE", "v": 7, "input": {"id": 1},
                         "a": "x", "b": [None]}]
 
 
@@ -37,8 +87,10 @@ def search(seed=0, thorough=False, budget_s=300):
     schemas = [build_schema(SCHEMA_A), build_schema(SCHEMA_B)]
     step = 1 if thorough else 4
     n = 0
-    for k, text in enumerate(corpus()):
-        if (k + seed) % step:
+    import itertools
+    always = list(semantic_corpus())
+    for k, text in enumerate(itertools.chain(always, corpus())):
+        if k >= len(always) and (k + seed) % step:
             continue
         if time.time() - t0 > budget_s:
             break
@@ -67,6 +119,7 @@ def search(seed=0, thorough=False, budget_s=300):
                         assert isinstance(e.get("message"), str)
                         assert isinstance(e.get("extensions", {}), dict)
                 except Exception as e:  # noqa: BLE001
-                    return {"entry": "graphql_sync", "input": text[:400], "variables": vv,
+                    return {"entry": "graphql_sync", "input": text[:400],
+                            "variables": "the mapping of 5000-digit integers (VARIABLES[3])" if vv and vv.get("v") == HUGE else repr(vv),
                             "observed": f"{type(e).__name__}: {e}"}
     return None
